@@ -13,7 +13,6 @@ Qed.
 
 Theorem string_refines_reference_at_source_chunk max ops r :
   Forall op_valid ops ->
-  writes_odd_break ops = false \/ existsb is_line_op ops = false ->
   ref_run KString rf_empty ops = Some r ->
   ss_run (ss_init max (N.to_nat gen_read_chunk_size)) ops = r.
 Proof. intros. apply string_refines_reference; auto using source_chunk_positive. Qed.
